@@ -215,14 +215,21 @@ class ForRofOperation(X86HasRegisterConstraints, ABC):
 
         # The loop-carried variables are trickier
         # The for op operand, block arg, and yield operand must have the same type
-        for block_arg, operand, yield_operand, op_result in zip(
-            block_args[1:], self.iter_args, yield_op.operands, self.res, strict=True
-        ):
+        # Values are replaced when they are allocated, so look each group up again
+        # rather than iterating over snapshots that may hold replaced values.
+        for i in range(len(self.iter_args)):
             allocator.allocate_values_same_reg(
-                (block_arg, operand, yield_operand, op_result)
+                (
+                    self.body.block.args[i + 1],
+                    self.iter_args[i],
+                    yield_op.operands[i],
+                    self.res[i],
+                )
             )
 
-        allocator.allocate_values_same_reg((block_args[0], self.lb, self.lb_end))
+        allocator.allocate_values_same_reg(
+            (self.body.block.args[0], self.lb, self.lb_end)
+        )
 
         # ub and step are used throughout loop when dynamic
         if self.ub_val is not None:
